@@ -669,7 +669,7 @@ struct HashMgrSim : Sim {
                 St s;
                 s.d = &g_algos[p.get("algo") % A_N];
                 s.f = &s.d->fams[p.get("family") % s.d->fams.size()];
-                s.api = (int) p.get("api");
+                s.api = g_force_family_api ? (int) API_FAMILY : (int) p.get("api");
                 s.env = &e;
                 s.r = &r;
                 s.plan_seed = p.seed;
